@@ -111,7 +111,7 @@ PROPS["C03"] = {
     "assumptions": ["commands terminate", "no worker thread panics (C18)"],
 }
 PROPS["C05"] = {
-    "jobs": [{"cmd": "c05", "shards": 16}, {"cmd": "trace", "shards": 16}],
+    "jobs": [{"cmd": "c05", "shards": 16}, {"cmd": "trace", "shards": 16}, "corner"],
     "cli": False, "trusted_base": COORD_TB, "modelled": COORD_MODELLED,
     "level_text": "Lean theorems: at quiescence every still-waiting file reaches a dependency cycle (so acyclic projects never get the circular failure), finished files cannot reach a cycle (so a required cyclic file never yields success), every seen file that cannot reach a cycle is finished with the complete sequential output, and the delivery bound does not need acyclicity (never hangs). Explored on the real coordinator over all digraphs with self-loops on <= 3 files, all delivery orders.",
     "design_ref": "5 C05, 4.7",
@@ -143,7 +143,7 @@ PROPS["C06"] = {
 }
 
 PROPS["C07"] = {
-    "jobs": [{"cmd": "c07", "shards": 32, "shards_thorough": 48}, {"cmd": "cli07", "shards": 8}],
+    "jobs": [{"cmd": "c07", "shards": 32, "shards_thorough": 48}, {"cmd": "cli07", "shards": 8}, "corner"],
     "cli": True,
     "trusted_base": ["M7 correspondence: every run of a generated history (library in process, real sh, real file system with sentinel mtimes) vs the Lean whole-run model over the same pre-state tree: verdict, all bytes on success, executed-command markers, touch set", "direct oracles on full-tree snapshots of the real runs"],
     "modelled": WHOLE_FILE_MODELLED,
